@@ -6,10 +6,16 @@
   a syntax error with the fuel `|src| + 1` it is given: it never panics (every look-ahead is the
   pattern match of the suffix list, fixes F1/F2), never runs out of fuel (each step consumes at least
   one character, fix F3 — the former infinite loop) and so produces at most `|src| + 1` tokens.
-  Covering and line numbers (`tokenize_cover`, `tokenize_lines`) are decided on every run by the
-  independent specification oracle of the C10 check over the exhaustive small alphabet.
+  `tokenize_cover_and_lines`: on success the token list satisfies the layout specification `Lexes`
+  (Lemmas/Layout.lean): walking the source from the start, every character is either a blank
+  (space, tab, CR, newline) or the first character of the next token, whose lexeme is the source text
+  verbatim (a string token: its content between quotes, the closing quote missing only at end of
+  input; a comment: one token), whose line is 1 + the number of newlines before it — also after
+  strings and comments spanning lines — and the list is closed by exactly one end marker.
+  The same specification is evaluated independently (in Python) on the implementation's tokens by
+  the C10 check over the exhaustive small alphabet.
 -/
-import Pakhi.Lemmas.Lexer
+import Pakhi.Lemmas.Layout
 
 namespace Pakhi
 namespace C10
@@ -25,6 +31,31 @@ theorem tokenize_total (src : Str) (file : Str) :
 
 theorem tokenize_never_panics (src : Str) (file : Str) : (∀ p, tokenize src file ≠ .panic p) ∧ tokenize src file ≠ .fuel := by
   rcases Pakhi.tokenize_total src file with ⟨t, h⟩ | ⟨e, h, _⟩ <;> simp [h]
+
+/-- the tokens account for every non-blank character exactly once, in order, with the right lines -/
+theorem tokenize_cover_and_lines (src file : Str) (toks : List Token) (h : tokenize src file = .ok toks) :
+    ∃ body, toks = body ++ [eotToken file] ∧ Lexes src 1 body ∧ ∀ t ∈ body, t.kind ≠ .eot := by
+  obtain ⟨body, h1, h2⟩ := tokenize_lexes src file toks h
+  exact ⟨body, h1, h2, lexes_no_eot h2⟩
+
+/-- what the specification says about one token -/
+theorem lexes_head (t : Token) (src : Str) (line : Nat) (toks : List Token) (h : Lexes src line (t :: toks)) :
+    ∃ (blanks rest : Str) (n : Nat), src = blanks ++ rest ∧ (∀ b ∈ blanks, isBlank b = true) ∧
+      t.line = line + countNewlines blanks ∧ TokText t rest n ∧
+      Lexes (rest.drop n) (t.line + countNewlines (rest.take n)) toks := by
+  generalize hq : t :: toks = q at h
+  induction h with
+  | nil => cases hq
+  | @blank c rest' line' toks' hb _ ih =>
+    obtain ⟨bl, rs, n, h1, h2, h3, h4, h5⟩ := ih hq
+    refine ⟨c :: bl, rs, n, by simp [h1], ?_, ?_, h4, h5⟩
+    · intro b hb'; rcases List.mem_cons.mp hb' with rfl | hb'
+      · exact hb
+      · exact h2 b hb'
+    · rw [h3, countNewlines_cons]; omega
+  | @tok t' src' n line' toks' h1 h2 h3 h4 _ =>
+    cases hq
+    exact ⟨[], src', n, rfl, by simp, by simp [h1, countNewlines_nil], h3, by rw [h1]; exact h4⟩
 
 /-- blanks produce no token; only a newline advances the line counter -/
 theorem blank_step (file : Str) (f : Nat) (b : Char) (src : Str) (line : Nat) (acc : List Token)
